@@ -5,7 +5,6 @@ package eng
 
 import (
 	"fmt"
-	"go/ast"
 	"go/token"
 	"go/types"
 	"math/big"
@@ -262,16 +261,7 @@ func hashTableOf(w *World, tb *TB, tableSym, field string) (map[int]string, map[
 			continue
 		}
 		fl := el.Field(field)
-		if fl == nil || fl.Kind != "func" {
-			res[i] = "?"
-			continue
-		}
-		var fn *ssa.Function
-		for _, f := range w.ModuleFuncs(OtpPath) {
-			if f.Syntax() == ast.Node(fl.Func) {
-				fn = f
-			}
-		}
+		fn := litFunc(w, OtpPath, fl)
 		if fn == nil {
 			res[i] = "?"
 			continue
